@@ -244,3 +244,25 @@ func init() {
 	mutant("length-mismatch-reset-not-closed", "completion-closes-stream", "serverConn.go", "					sc.writeReset(strm.ID(), ProtocolError)\n					strm.SetState(StreamStateClosed)\n				} else {", "					sc.writeReset(strm.ID(), ProtocolError)\n				} else {")
 	mutant("header-limit-zero-is-a-limit", "request-mapping", "serverConn.go", "if sc.maxHeaderList > 0 && strm.headerListSize > sc.maxHeaderList {", "if sc.maxHeaderList >= 0 && strm.headerListSize > sc.maxHeaderList {")
 }
+
+// Variants for payload-layout and the settings codec corrections.
+func init() {
+	mutant("goaway-code-offset-read", "payload-layout", "goaway.go", "ga.code = ErrorCode(http2utils.BytesToUint32(fr.payload[4:]))", "ga.code = ErrorCode(http2utils.BytesToUint32(fr.payload[3:]))")
+	mutant("goaway-code-offset-write", "payload-layout", "goaway.go", "fr.payload = http2utils.AppendUint32Bytes(fr.payload[:4], uint32(ga.code))", "fr.payload = http2utils.AppendUint32Bytes(fr.payload[:3], uint32(ga.code))")
+	mutant("goaway-debug-offset", "payload-layout", "goaway.go", "ga.data = append(ga.data[:0], fr.payload[8:]...)", "ga.data = append(ga.data[:0], fr.payload[7:]...)")
+	mutant("priority-weight-index", "payload-layout", "priority.go", "pry.weight = fr.payload[4]", "pry.weight = fr.payload[3]")
+	mutant("priority-weight-not-written", "payload-layout", "priority.go", "	fr.payload = append(fr.payload, pry.weight)", "	fr.payload = append(fr.payload, 0)")
+	mutant("headers-weight-index-write", "payload-layout", "headers.go", "h.rawHeaders[4] = h.weight", "h.rawHeaders[3] = h.weight")
+	mutant("headers-dependency-slot", "payload-layout", "headers.go", "http2utils.Uint32ToBytes(h.rawHeaders[0:4], h.stream)", "http2utils.Uint32ToBytes(h.rawHeaders[1:5], h.stream)")
+	mutant("headers-shift-short", "payload-layout", "headers.go", "copy(h.rawHeaders[5:], h.rawHeaders)", "copy(h.rawHeaders[4:], h.rawHeaders)")
+	mutant("headers-block-after-priority", "payload-layout", "headers.go", "		payload = payload[5:]", "		payload = payload[4:]")
+	mutant("pushpromise-block-offset", "payload-layout", "pushpromise.go", "pp.header = append(pp.header, payload[4:]...)", "pp.header = append(pp.header, payload[5:]...)")
+	mutant("ping-data-not-read", "payload-layout", "ping.go", "	p.SetData(frh.payload)\n", "")
+	mutant("settings-id-low-octet", "settings-codec-table", "settings.go", "key = uint16(b[0])<<8 | uint16(b[1])", "key = uint16(b[0])<<8 | uint16(b[2])")
+	mutant("settings-value-low-octet", "settings-codec-table", "settings.go", "uint32(b[4])<<8 | uint32(b[5])", "uint32(b[4])<<8 | uint32(b[4])")
+	mutant("settings-last-entry-skipped", "settings-codec-table", "settings.go", "	for i <= n {", "	for i < n {")
+	mutant("settings-push-literal", "settings-codec-table", "settings.go", "			0, 0, 0, 1,", "			0, 0, 1, 0,")
+	mutant("settings-push-rejects-all", "settings-validate", "settings.go", "if value != 0 && value != 1 {", "if value != 0 || value != 1 {")
+	mutant("settings-framesize-accepts-all", "settings-validate", "settings.go", "if value < 1<<14 || value > 1<<24-1 {", "if value < 1<<14 && value > 1<<24-1 {")
+	mutant("settings-table-size-inverted", "settings-encode-defaults", "settings.go", "	if st.tableSize != 0 {", "	if st.tableSize == 0 {")
+}
